@@ -1,9 +1,14 @@
 PROP = dict(
-    drivers=['Term'],
-    gens=[],
-    lake=['IcyVerif.Props.C01'],
+    drivers=['Term', 'Rows'],
+    gens=['rows'],
+    lake=['IcyVerif.Props.C01', 'IcyVerif.Props.C01Rows'],
     ns='IcyVerif.C01',
-    theorems=['no_panic_bytes_partial', 'petscii_reverse_no_overflow', 'no_panic_wrapped_partial', 'no_panic_partial', 'overflow_guard_needs_2_30_rows', 'errors_recoverable', 'reachable_good', 'music_fields_in_range', 'music_arith_safe', 'note_index_in_table'],
+    theorems=['no_panic_bytes_partial', 'petscii_reverse_no_overflow', 'no_panic_wrapped_partial', 'no_panic_partial', 'overflow_guard_needs_2_30_rows', 'errors_recoverable', 'reachable_good', 'music_fields_in_range', 'music_arith_safe', 'note_index_in_table',
+              'rows_total', 'rows_total_from', 'rows_total_wrapped', 'rows_total_bytes', 'call_sites_provide', 'bw_reachable',
+              'set_char_total', 'scroll_left_total', 'scroll_right_total', 'scroll_up_down_total', 'insert_line_total',
+              'remove_line_total', 'erase_character_total', 'del_ins_total', 'print_char_total', 'line_feed_total',
+              'clear_and_fill_total', 'row_sites_known', 'row_sites_complete',
+              'rows_refine_term', 'rows_refine_wrapped', 'rows_shape_page', 'fill_count_irrelevant'],
     harness='c01',
     search=True,
     harness_timeout=1500,
@@ -15,7 +20,15 @@ PROP = dict(
               'oracle (panic / abort / hang per character, crash-isolated workers) on the real code for all emulations; '
               'failing-input search: the proved invariant GoodSt is evaluated on the real terminal after every character and '
               'the first prefix that leaves it is extended with every probe suffix (probe.rs), plus the same from '
-              'correspondence mismatches (`--replay @search:<file>`, hook `search=True`, notes/check_search.patch)',
+              'correspondence mismatches (`--replay @search:<file>`, hook `search=True`, notes/check_search.patch). '
+              'ROW TABLE (Props/C01Rows): a second model, Model/Rows*.lean, carries the shape of layer 0 (number of rows, every '
+              'row\'s chars.len(), layer size) next to TermGeo and transcribes every function that indexes / inserts / removes in '
+              '`Layer.lines` or a row with each Rust panic as an explicit outcome; rows_total* prove for ALL initial row tables and '
+              'all streams that no content operation panics (induction over the stream and the macro nesting, invariant GoodSt + '
+              'buffer width in 1..=132 + layer width constant), per-operation theorems state each precondition, call_sites_provide '
+              'derives them from GoodSt, rows_refine_* show the joint step is Term.step; tied by a second per-character '
+              'correspondence (digest of the row table after every character of every case) and by tools/gens/rows.py (guards '
+              'pinned, 96 panic-capable lines inventoried: row_sites_known)',
     rule='cases: seeded grammar-based streams (complete CSI final x intermediate table + a table of well-formed private / '
          'intermediate sequences, 0..6 parameters incl. 2^16, 10^6, 2^31-1 and 11-digit values, DCS macros/hex macros/sixel/font '
          'payloads, OSC palette/hyperlinks, APS, ANSI music, save -> geometry change -> restore triples, emulation-specific '
@@ -26,7 +39,15 @@ PROP = dict(
          '(<= 1 token quick, <= 2 tokens thorough for the non-ANSI emulations) x every probe suffix (~130 ANSI + own alphabet: '
          'ECH ICH DCH IL DL insert/no-wrap print REP SU SD SL SR EL ED tabs HPA HPR CUx max-parameter loops rectangles checksum '
          'reports save/restore across scrollback drop/growth/reset LF IND RI NEL margins resets hyperlinks macros); '
-         'evaluations = characters fed; distinct_nontrivial = distinct streams compared with the model',
+         'evaluations = characters fed; distinct_nontrivial = distinct streams compared with the model; '
+         'every case is fed a second time for the row-table correspondence (`rows …` requests); ROW-TABLE FAMILY '
+         '(harness/src/rowsfam.rs, buckets `rows:*`): 700 (quick) / 6000 (thorough) streams of shape tokens (clear, line feeds, '
+         'short rows, cursor below the last row, insert-mode prints / ICH / ECH beyond the layer width, resize smaller and '
+         'larger, top/bottom and left/right margins, scrollback, IL growth) followed by content commands with boundary '
+         'parameters (ECH ICH DCH IL DL ED EL SU SD SL SR REP insert-mode print BS DEL LF RI IND NEL CUU CUD RIS DECFRA DECERA '
+         'DECSERA CSI ~ prints at the edge with and without wrap, the same from plain and hex macros; ATASCII / PETSCII / '
+         'Viewdata / Mode 7 / Avatar / Ctrl-A row operations), plus the systematic product of 13 fixed shapes x 3 cursor '
+         'positions x 96 content commands on a 5x3 screen',
     modelled='all ten emulations: Avatar / PCBoard / Ctrl-A / Renegade wrappers in front of the ANSI parser (Model/TermWrap, '
              'no_panic_wrapped_partial), ASCII / ATASCII / PETSCII / Viewdata / Mode 7 (Model/TermOther, no_panic_bytes_partial); '
              'ANSI parser control flow (ESC/CSI/DCS/OSC/APS framing, macro definition incl. hex macros, macro '
@@ -35,18 +56,31 @@ PROP = dict(
              '(ECH column, IL / DL / PETSCII ESC D,I / ATASCII 9C,9D row and bottom margin, insert-mode print row and column) as '
              'explicit panics shown unreachable; the ANSI music machine of sound.rs completely (seven states with payloads, '
              'octave / length / tempo incl. the u16 truncation, action list, dropped-note and repeated-pause quirks; '
-             'music_fields_in_range, music_arith_safe, note_index_in_table), tied through the payload of every PlayMusic action',
+             'music_fields_in_range, music_arith_safe, note_index_in_table), tied through the payload of every PlayMusic action; '
+             'THE ROW TABLE of layer 0 for all ten emulations (Model/Rows, RowsAnsi, RowsOther): Line::create / with_capacity / '
+             'set_char / insert_char, Layer::get_char / set_char / remove_line / insert_line / clear, Caret::lf / ff / bs / del / ins / '
+             'erase_charcter and the scroll checks of up / down / index / reverse_index / next_line, Buffer::print_char (insert '
+             'mode, line feed at the edge) / scroll_up / scroll_down / scroll_left / scroll_right / clear_screen / '
+             'clear_buffer_down / clear_buffer_up / clear_line(_end/_start) / remove_terminal_line / insert_terminal_line, '
+             'get_rect_area + DECFRA / DECERA / DECSERA, REP, ICH / DCH / IL / DL counts, PETSCII update_shift_mode, ATASCII / '
+             'PETSCII line operations, Viewdata / Mode 7 print + fill_to_eol (with the parser flags that decide whether it '
+             'runs), Avatar repeat, Ctrl-A clears — through macro replay too',
     not_modelled='what OSC execution does (palette regex + hyperlink list: its Ok/Err is an oracle input; panic-capable sites there: '
                  '`first().unwrap()` guarded by i == 3, regex groups 2-4 are not optional, hyperlink length arithmetic needs '
                  'rows x width > 2^31 cells), custom font load (oracle input; C10/C17), sixel decode thread (C14), SGR '
-                 'attribute bits and colours (Ok/Err of SGR is modelled), cell contents of every emulation (the models carry '
-                 'geometry and parser state; Line::get_line_length for HPA/HPR is an oracle value observed before each top-level '
-                 'character — the generator keeps HPA/HPR out of macro bodies), current_escape_sequence (error text), RIP/IGS '
+                 'attribute bits and colours (Ok/Err of SGR is modelled), the VALUES of cells (the row-table model carries how many '
+                 'cells each row has, not what they hold; Line::get_line_length for HPA/HPR is an oracle value observed before each '
+                 'top-level character — the generator keeps HPA/HPR out of macro bodies; the number of cells a Viewdata / Mode 7 '
+                 'fill_to_eol visits is universally quantified and proved irrelevant on the 40x24 page, fill_count_irrelevant), '
+                 'layers other than layer 0 (sixel layers are only added by the front end), a locked / hidden / alpha-locked '
+                 'layer 0 (never the case for a terminal buffer), current_escape_sequence (error text), RIP/IGS '
                  '(C20). Modelled arms the quick generator still does not reach: InvalidBuffer / `None` arms behind is_empty '
                  'checks (unreachable), OriginMode::WithinMargins (never set), macro budget exhaustion (C03 reaches it)',
     assumptions=['the model raises `overflow` conservatively when cursor/row arithmetic could leave i32; '
                  'theorem overflow_guard_needs_2_30_rows shows this needs a scrollback above 2^30 rows',
                  'the negIndex conditions of ECH / IL / DL are conservative (they do not know whether the addressed row exists); '
                  'they only differ from the code in states with a negative cursor coordinate or margin, which are unreachable',
-                 'a text-area resize executed inside a macro replay shows to the harness only as a size change at the invoking `z`'],
+                 'a text-area resize executed inside a macro replay shows to the harness only as a size change at the invoking `z`',
+                 'row table: the number of rows and every row length stay below 2^31 (the code casts `len() as i32`; 2^31 cells of '
+                 'one row are > 32 GB) and allocations succeed; the model uses unbounded naturals there'],
 )
